@@ -5,18 +5,18 @@
 
 #[path = "/verif/harness/util.rs"]
 pub mod util;
-#[path = "/verif/harness/m_filter.rs"]
-mod m_filter;
+#[path = "/verif/harness/modes_gen.rs"]
+mod modes_gen;
 
 pub fn dispatch() -> Option<i32> {
     let mode = std::env::var("ZINOMA_VERIF").ok()?;
     let cases = std::env::var("ZINOMA_VERIF_CASES").unwrap_or_default();
     // Panics inside a case are caught per case by the modes; keep the default hook quiet.
     std::panic::set_hook(Box::new(|_| {}));
-    let code = match mode.as_str() {
-        "filter" => m_filter::run(&cases),
-        other => {
-            eprintln!("unknown ZINOMA_VERIF mode {}", other);
+    let code = match modes_gen::dispatch_mode(mode.as_str(), &cases) {
+        Some(code) => code,
+        None => {
+            eprintln!("unknown ZINOMA_VERIF mode {}", mode);
             2
         }
     };
